@@ -19,6 +19,8 @@ set_option linter.all false
 
 open EPV EPV.Gen EPV.Spec EPV.Lemmas
 
+open Filter Topology
+
 namespace EPV.C01
 
 /-- the traced model has exactly the leaves the theorems below cover (leaf 0 is the NaN
@@ -88,5 +90,90 @@ theorem cog21_pre_energy (p : Cog21.P) (c a lam0 α β r t : ℝ) :
     (Cog21.L2.velocity_hasDerivAt_r p r t).deriv]
   simp only [epv_deriv, epv_leaf]
   ring
+
+/-! ### The returned (tree-level) fields away from the shock -/
+
+/-- the shock position of solution 21 -/
+noncomputable def cog21_shock (p : Cog21.P) (t : ℝ) : ℝ := 2 / ((p.Gamma * p.temp0) * t ^ 2)
+
+theorem cog21_shock_continuousAt (p : Cog21.P) (t : ℝ) (hΓT : p.Gamma * p.temp0 ≠ 0) (ht : t ≠ 0) :
+    ContinuousAt (cog21_shock p) t := by
+  unfold cog21_shock
+  exact ContinuousAt.div (by fun_prop) (by fun_prop) (mul_ne_zero hΓT (pow_ne_zero 2 ht))
+
+/-- behind the shock the returned fields are those of leaf 1 near the point -/
+theorem cog21_tree_post (p : Cog21.P) (r t : ℝ) (hΓT : p.Gamma * p.temp0 ≠ 0) (ht : 0 < t)
+    (h : r < cog21_shock p t) :
+    AgreeNear (Cog21.density p) (Cog21.L1.density p) r t
+      ∧ AgreeNear (Cog21.velocity p) (Cog21.L1.velocity p) r t
+      ∧ AgreeNear (Cog21.temperature p) (Cog21.L1.temperature p) r t := by
+  have hx : ∀ᶠ x in 𝓝 r, 0 < t ∧ x < cog21_shock p t :=
+    (eventually_lt_nhds h).mono fun x hx => ⟨ht, hx⟩
+  have hs : ∀ᶠ s in 𝓝 t, 0 < s ∧ r < cog21_shock p s :=
+    (eventually_gt_nhds ht).and
+      (continuousAt_const.eventually_lt (cog21_shock_continuousAt p t hΓT ht.ne') h)
+  have e : ∀ x s, (0 < s ∧ x < cog21_shock p s) → ¬ Cog21.c0 p x s ∧ Cog21.c1 p x s := by
+    intro x s hc
+    simp only [epv_cond, cog21_shock] at hc ⊢
+    exact ⟨not_le.2 hc.1, hc.2⟩
+  exact ⟨agreeNear_of_cond (c := fun x s => 0 < s ∧ x < cog21_shock p s)
+      (fun x s hc => by simp only [epv_tree, if_neg (e x s hc).1, if_pos (e x s hc).2]) hx hs,
+    agreeNear_of_cond (c := fun x s => 0 < s ∧ x < cog21_shock p s)
+      (fun x s hc => by simp only [epv_tree, if_neg (e x s hc).1, if_pos (e x s hc).2]) hx hs,
+    agreeNear_of_cond (c := fun x s => 0 < s ∧ x < cog21_shock p s)
+      (fun x s hc => by simp only [epv_tree, if_neg (e x s hc).1, if_pos (e x s hc).2]) hx hs⟩
+
+/-- ahead of the shock the returned fields are those of leaf 2 near the point -/
+theorem cog21_tree_pre (p : Cog21.P) (r t : ℝ) (hΓT : p.Gamma * p.temp0 ≠ 0) (ht : 0 < t)
+    (h : cog21_shock p t < r) :
+    AgreeNear (Cog21.density p) (Cog21.L2.density p) r t
+      ∧ AgreeNear (Cog21.velocity p) (Cog21.L2.velocity p) r t
+      ∧ AgreeNear (Cog21.temperature p) (Cog21.L2.temperature p) r t := by
+  have hx : ∀ᶠ x in 𝓝 r, 0 < t ∧ cog21_shock p t < x :=
+    (eventually_gt_nhds h).mono fun x hx => ⟨ht, hx⟩
+  have hs : ∀ᶠ s in 𝓝 t, 0 < s ∧ cog21_shock p s < r :=
+    (eventually_gt_nhds ht).and
+      ((cog21_shock_continuousAt p t hΓT ht.ne').eventually_lt continuousAt_const h)
+  have e : ∀ x s, (0 < s ∧ cog21_shock p s < x) → ¬ Cog21.c0 p x s ∧ ¬ Cog21.c1 p x s := by
+    intro x s hc
+    simp only [epv_cond, cog21_shock] at hc ⊢
+    exact ⟨not_le.2 hc.1, not_lt.2 hc.2.le⟩
+  exact ⟨agreeNear_of_cond (c := fun x s => 0 < s ∧ cog21_shock p s < x)
+      (fun x s hc => by simp only [epv_tree, if_neg (e x s hc).1, if_neg (e x s hc).2]) hx hs,
+    agreeNear_of_cond (c := fun x s => 0 < s ∧ cog21_shock p s < x)
+      (fun x s hc => by simp only [epv_tree, if_neg (e x s hc).1, if_neg (e x s hc).2]) hx hs,
+    agreeNear_of_cond (c := fun x s => 0 < s ∧ cog21_shock p s < x)
+      (fun x s hc => by simp only [epv_tree, if_neg (e x s hc).1, if_neg (e x s hc).2]) hx hs⟩
+
+/-- mass balance of the returned fields at every point away from the shock -/
+theorem cog21_mass_tree (p : Cog21.P) (r t : ℝ) (hr : r ≠ 0) (ht : 0 < t) (hΓT : p.Gamma * p.temp0 ≠ 0)
+    (hsh : r ≠ cog21_shock p t) :
+    massRes (Cog21.density p) (Cog21.velocity p) 2 r t = 0 := by
+  rcases lt_or_gt_of_ne hsh with h | h
+  · obtain ⟨h2, h3, h4⟩ := cog21_tree_post p r t hΓT ht h
+    rw [massRes_congr_near h2 h3]; exact cog21_post_mass p r t hr
+  · obtain ⟨h2, h3, h4⟩ := cog21_tree_pre p r t hΓT ht h
+    rw [massRes_congr_near h2 h3]; exact cog21_pre_mass p r t hr ht.ne'
+
+/-- momentum balance of the returned fields at every point away from the shock -/
+theorem cog21_momentum_tree (p : Cog21.P) (r t : ℝ) (hr : r ≠ 0) (ht : 0 < t) (hρ : p.rho0 ≠ 0)
+    (hΓT : p.Gamma * p.temp0 ≠ 0) (hsh : r ≠ cog21_shock p t) :
+    momResT (Cog21.density p) (Cog21.velocity p) (Cog21.temperature p) p.Gamma r t = 0 := by
+  rcases lt_or_gt_of_ne hsh with h | h
+  · obtain ⟨h2, h3, h4⟩ := cog21_tree_post p r t hΓT ht h
+    rw [momResT_congr_near h2 h3 h4]; exact cog21_post_momentum p r t hr hρ
+  · obtain ⟨h2, h3, h4⟩ := cog21_tree_pre p r t hΓT ht h
+    rw [momResT_congr_near h2 h3 h4]; exact cog21_pre_momentum p r t ht.ne'
+
+/-- energy balance (no conduction) of the returned fields at every point away from the shock -/
+theorem cog21_energy_tree (p : Cog21.P) (c a α β r t : ℝ) (ht : 0 < t) (hΓT : p.Gamma * p.temp0 ≠ 0)
+    (hsh : r ≠ cog21_shock p t) :
+    energyResT (Cog21.density p) (Cog21.velocity p) (Cog21.temperature p)
+      p.Gamma 5 2 c a 0 α β r t = 0 := by
+  rcases lt_or_gt_of_ne hsh with h | h
+  · obtain ⟨h2, h3, h4⟩ := cog21_tree_post p r t hΓT ht h
+    rw [energyResT_congr_near h2 h3 h4]; exact cog21_post_energy p c a α β r t
+  · obtain ⟨h2, h3, h4⟩ := cog21_tree_pre p r t hΓT ht h
+    rw [energyResT_congr_near h2 h3 h4]; exact cog21_pre_energy p c a 0 α β r t
 
 end EPV.C01
